@@ -244,6 +244,7 @@ let run (line : string) : string =
   | "mem" -> show_bool (mem (parse_doc a.(1)) (parse_shape a.(2)))
   | "cmp" -> show_cmp (cmp (parse_shape a.(1)) (parse_shape a.(2)))
   | "wf" -> show_bool (wf (parse_shape a.(1)))
+  | "no_null_array" -> show_bool (no_null_array (parse_shape a.(1)))
   | "oneof_free" -> show_bool (oneof_free (parse_shape a.(1)))
   | "nodup" -> show_bool (nodup_keys (parse_doc a.(1)))
   | "conflict_free" -> show_bool (conflict_free (parse_doc a.(1)))
